@@ -600,8 +600,10 @@ class VeriTNotEquiv1(Macro):
     def eval(self, args, prevs):
         pt = prevs[0]
         p1, p2 = args
+        if not pt.prop.is_not() or not pt.prop.arg.is_equals():
+            raise VeriTException("not_equiv2", "premise must be a negated equivalence")
         pt_p1, pt_p2 = pt.prop.arg.arg1, pt.prop.arg.arg
-        if p1.arg == pt_p1 and p2.arg == pt_p2:
+        if p1 == Not(pt_p1) and p2 == Not(pt_p2):
             return Thm(Or(p1, p2), pt.hyps)
         else:
             raise VeriTException("not_equiv2", "unexpected goal %s" % Or(*args))
